@@ -8,17 +8,17 @@ import XonshVerif.Model.Alias
 open Alias
 
 /-- unfolding equation of `evalAlias` without dependent conditionals -/
-theorem evalAlias_eq (tbl : Tbl) (orc : Oracle) (v : Val) (seen acc : List Tok) (decs : List Nat) :
-    evalAlias tbl orc v seen acc decs =
-      match prepare tbl orc v acc decs with
+theorem evalAlias_eq (tbl : Tbl) (orc : Oracle) (exp : Tok → Tok) (v : Val) (seen acc : List Tok) (decs : List Nat) :
+    evalAlias tbl orc exp v seen acc decs =
+      match prepare tbl orc exp v acc decs with
       | .done r d => (r, d, seen)
       | .go token rest acc d =>
         if seen.contains token then (.cmd (token :: rest ++ acc), d, seen)
         else match tbl.lookup token with
           | none => (.cmd (token :: rest ++ acc), d, seen)
-          | some v' => evalAlias tbl orc v' (token :: seen) (rest ++ acc) d := by
+          | some v' => evalAlias tbl orc exp v' (token :: seen) (rest ++ acc) d := by
   rw [evalAlias]
-  cases prepare tbl orc v acc decs with
+  cases prepare tbl orc exp v acc decs with
   | done r d => rfl
   | go token rest acc d =>
     simp only []
@@ -32,11 +32,11 @@ theorem evalAlias_eq (tbl : Tbl) (orc : Oracle) (v : Val) (seen acc : List Tok) 
 
 /-- the seen set only grows, stays duplicate-free (each alias is expanded at most once per chain),
 and the number of expansions is bounded by the number of not-yet-seen table keys -/
-theorem C15_once_and_bound (tbl : Tbl) (orc : Oracle) (v : Val) (seen acc : List Tok) (decs : List Nat)
+theorem C15_once_and_bound (tbl : Tbl) (orc : Oracle) (exp : Tok → Tok) (v : Val) (seen acc : List Tok) (decs : List Nat)
     (hn : seen.Nodup) :
-    let r := evalAlias tbl orc v seen acc decs
+    let r := evalAlias tbl orc exp v seen acc decs
     r.2.2.Nodup ∧ (∀ t ∈ seen, t ∈ r.2.2) ∧ r.2.2.length ≤ seen.length + (unseen tbl seen).length := by
-  fun_induction evalAlias tbl orc v seen acc decs with
+  fun_induction evalAlias tbl orc exp v seen acc decs with
   | case1 v seen acc decs r decs' hp => exact ⟨hn, fun t h => h, by simp⟩
   | case2 v seen acc decs token rest acc' decs' hp hs => exact ⟨hn, fun t h => h, by simp⟩
   | case3 v seen acc decs token rest acc' decs' hp hs hl => exact ⟨hn, fun t h => h, by simp⟩
@@ -50,9 +50,9 @@ theorem C15_once_and_bound (tbl : Tbl) (orc : Oracle) (v : Val) (seen acc : List
     omega
 
 /-- TERMINATION, as a number: resolving a command expands at most `tbl.length` aliases -/
-theorem C15_bound (tbl : Tbl) (orc : Oracle) (key : Tok) (v : Val) (args : List Tok) :
-    (evalAlias tbl orc v [key] args []).2.2.length ≤ 1 + tbl.length := by
-  have h := (C15_once_and_bound tbl orc v [key] args [] (by simp)).2.2
+theorem C15_bound (tbl : Tbl) (orc : Oracle) (exp : Tok → Tok) (key : Tok) (v : Val) (args : List Tok) :
+    (evalAlias tbl orc exp v [key] args []).2.2.length ≤ 1 + tbl.length := by
+  have h := (C15_once_and_bound tbl orc exp v [key] args [] (by simp)).2.2
   have : (unseen tbl [key]).length ≤ tbl.length := by
     unfold unseen keys
     exact Nat.le_trans (List.length_filter_le _ _) (by simp)
@@ -73,10 +73,10 @@ def isRet : Val → Bool
 /-- no return-command alias anywhere in the table (those receive the arguments and decide themselves) -/
 def NoRet (tbl : Tbl) : Prop := ∀ k v, tbl.lookup k = some v → isRet v = false
 
-theorem prepare_append (tbl : Tbl) (orc : Oracle) (v : Val) (acc extra : List Tok) (decs : List Nat)
+theorem prepare_append (tbl : Tbl) (orc : Oracle) (exp : Tok → Tok) (v : Val) (acc extra : List Tok) (decs : List Nat)
     (hv : isRet v = false) :
-    prepare tbl orc v (acc ++ extra) decs =
-      match prepare tbl orc v acc decs with
+    prepare tbl orc exp v (acc ++ extra) decs =
+      match prepare tbl orc exp v acc decs with
       | .done r d => .done (appendRes r extra) d
       | .go t r a d => .go t r (a ++ extra) d := by
   cases v with
@@ -89,26 +89,26 @@ theorem prepare_append (tbl : Tbl) (orc : Oracle) (v : Val) (acc extra : List To
 
 /-- EXPANSION IS INDEPENDENT OF TRAILING ARGUMENTS, which are appended verbatim, in order, once:
 for all tables without return-command aliases (any graph shape), all values, all argument lists. -/
-theorem C15_args_appended (tbl : Tbl) (orc : Oracle) (v : Val) (seen acc extra : List Tok) (decs : List Nat)
+theorem C15_args_appended (tbl : Tbl) (orc : Oracle) (exp : Tok → Tok) (v : Val) (seen acc extra : List Tok) (decs : List Nat)
     (hnr : NoRet tbl) (hv : isRet v = false) :
-    evalAlias tbl orc v seen (acc ++ extra) decs =
-      (appendRes (evalAlias tbl orc v seen acc decs).1 extra,
-       (evalAlias tbl orc v seen acc decs).2.1, (evalAlias tbl orc v seen acc decs).2.2) := by
-  fun_induction evalAlias tbl orc v seen acc decs with
+    evalAlias tbl orc exp v seen (acc ++ extra) decs =
+      (appendRes (evalAlias tbl orc exp v seen acc decs).1 extra,
+       (evalAlias tbl orc exp v seen acc decs).2.1, (evalAlias tbl orc exp v seen acc decs).2.2) := by
+  fun_induction evalAlias tbl orc exp v seen acc decs with
   | case1 v seen acc decs r decs' hp =>
-    rw [evalAlias_eq, prepare_append _ _ _ _ _ _ hv, hp]
+    rw [evalAlias_eq, prepare_append _ _ _ _ _ _ _ hv, hp]
   | case2 v seen acc decs token rest acc' decs' hp hs =>
-    rw [evalAlias_eq, prepare_append _ _ _ _ _ _ hv, hp]
+    rw [evalAlias_eq, prepare_append _ _ _ _ _ _ _ hv, hp]
     simp only []
     rw [if_pos hs]
     simp [appendRes]
   | case3 v seen acc decs token rest acc' decs' hp hs hl =>
-    rw [evalAlias_eq, prepare_append _ _ _ _ _ _ hv, hp]
+    rw [evalAlias_eq, prepare_append _ _ _ _ _ _ _ hv, hp]
     simp only []
     rw [if_neg hs, hl]
     simp [appendRes]
   | case4 v seen acc decs token rest acc' decs' hp hs v' hl ih =>
-    rw [evalAlias_eq, prepare_append _ _ _ _ _ _ hv, hp]
+    rw [evalAlias_eq, prepare_append _ _ _ _ _ _ _ hv, hp]
     simp only []
     rw [if_neg hs, hl]
     simp only []
@@ -116,9 +116,9 @@ theorem C15_args_appended (tbl : Tbl) (orc : Oracle) (v : Val) (seen acc extra :
     exact ih (hnr token v' hl)
 
 /-- `aliases.get([key] + args)` is `aliases.get([key])` with `args` appended -/
-theorem C15_get_args_appended (tbl : Tbl) (orc : Oracle) (key : Tok) (args : List Tok) (hnr : NoRet tbl) :
-    Alias.get tbl orc key args =
-      (appendRes (Alias.get tbl orc key []).1 args, (Alias.get tbl orc key []).2.1, (Alias.get tbl orc key []).2.2) := by
+theorem C15_get_args_appended (tbl : Tbl) (orc : Oracle) (exp : Tok → Tok) (key : Tok) (args : List Tok) (hnr : NoRet tbl) :
+    Alias.get tbl orc exp key args =
+      (appendRes (Alias.get tbl orc exp key []).1 args, (Alias.get tbl orc exp key []).2.1, (Alias.get tbl orc exp key []).2.2) := by
   unfold Alias.get
   cases hl : tbl.lookup key with
   | none => simp [appendRes]
@@ -127,19 +127,19 @@ theorem C15_get_args_appended (tbl : Tbl) (orc : Oracle) (key : Tok) (args : Lis
     cases v with
     | retcmd id => simp [isRet] at hv
     | words ws =>
-      have := C15_args_appended tbl orc (.words ws) [key] [] args [] hnr rfl
+      have := C15_args_appended tbl orc exp (.words ws) [key] [] args [] hnr rfl
       simpa using this
     | callable id =>
-      have := C15_args_appended tbl orc (.callable id) [key] [] args [] hnr rfl
+      have := C15_args_appended tbl orc exp (.callable id) [key] [] args [] hnr rfl
       simpa using this
     | decorator id =>
-      have := C15_args_appended tbl orc (.decorator id) [key] [] args [] hnr rfl
+      have := C15_args_appended tbl orc exp (.decorator id) [key] [] args [] hnr rfl
       simpa using this
 
 /-- a return-command alias at the head receives exactly the user's arguments, whole and in order -/
-theorem C15_retcmd_gets_args (tbl : Tbl) (orc : Oracle) (key : Tok) (id : Nat) (args ws : List Tok)
+theorem C15_retcmd_gets_args (tbl : Tbl) (orc : Oracle) (exp : Tok → Tok) (key : Tok) (id : Nat) (args ws : List Tok)
     (hl : tbl.lookup key = some (.retcmd id)) (ho : orc id args = some ws) (hne : ws ≠ []) :
-    Alias.get tbl orc key args = evalAlias tbl orc (.words ws) [key] [] [] := by
+    Alias.get tbl orc exp key args = evalAlias tbl orc exp (.words ws) [key] [] [] := by
   cases ws with
   | nil => exact absurd rfl hne
   | cons a b =>
@@ -164,8 +164,8 @@ def Alias.Prep.decsOf : Prep → List Nat
   | .done _ d => d
   | .go _ _ _ d => d
 
-theorem prepare_decs_prefix (tbl : Tbl) (orc : Oracle) (v : Val) (acc : List Tok) (decs : List Nat) :
-    ∃ d, (prepare tbl orc v acc decs).decsOf = decs ++ d := by
+theorem prepare_decs_prefix (tbl : Tbl) (orc : Oracle) (exp : Tok → Tok) (v : Val) (acc : List Tok) (decs : List Nat) :
+    ∃ d, (prepare tbl orc exp v acc decs).decsOf = decs ++ d := by
   cases v with
   | words ws =>
     by_cases h : ws.length > 1
@@ -185,17 +185,17 @@ theorem prepare_decs_prefix (tbl : Tbl) (orc : Oracle) (v : Val) (acc : List Tok
     simp only [prepare]
     rcases orc id acc with _ | ⟨_ | ⟨t, r⟩⟩ <;> simp [Prep.decsOf]
 
-theorem C15_decorators_in_order (tbl : Tbl) (orc : Oracle) (v : Val) (seen acc : List Tok) (decs : List Nat) :
-    ∃ d, (evalAlias tbl orc v seen acc decs).2.1 = decs ++ d := by
-  fun_induction evalAlias tbl orc v seen acc decs with
+theorem C15_decorators_in_order (tbl : Tbl) (orc : Oracle) (exp : Tok → Tok) (v : Val) (seen acc : List Tok) (decs : List Nat) :
+    ∃ d, (evalAlias tbl orc exp v seen acc decs).2.1 = decs ++ d := by
+  fun_induction evalAlias tbl orc exp v seen acc decs with
   | case1 v seen acc decs r decs' hp =>
-    have := prepare_decs_prefix tbl orc v acc decs; rw [hp] at this; exact this
+    have := prepare_decs_prefix tbl orc exp v acc decs; rw [hp] at this; exact this
   | case2 v seen acc decs token rest acc' decs' hp hs =>
-    have := prepare_decs_prefix tbl orc v acc decs; rw [hp] at this; exact this
+    have := prepare_decs_prefix tbl orc exp v acc decs; rw [hp] at this; exact this
   | case3 v seen acc decs token rest acc' decs' hp hs hl =>
-    have := prepare_decs_prefix tbl orc v acc decs; rw [hp] at this; exact this
+    have := prepare_decs_prefix tbl orc exp v acc decs; rw [hp] at this; exact this
   | case4 v seen acc decs token rest acc' decs' hp hs v' hl ih =>
-    have := prepare_decs_prefix tbl orc v acc decs; rw [hp] at this
+    have := prepare_decs_prefix tbl orc exp v acc decs; rw [hp] at this
     obtain ⟨d1, h1⟩ := this
     obtain ⟨d2, h2⟩ := ih
     simp only [Prep.decsOf] at h1
@@ -209,26 +209,26 @@ theorem stripDecs_congr (tbl tbl' : Tbl) (h : ∀ k, tbl.lookup k = tbl'.lookup 
   | nil => rfl
   | cons t rest ih => simp only [stripDecs, h t]; split <;> simp_all
 
-theorem prepare_congr (tbl tbl' : Tbl) (h : ∀ k, tbl.lookup k = tbl'.lookup k) (orc : Oracle) (v : Val)
-    (acc : List Tok) (decs : List Nat) : prepare tbl orc v acc decs = prepare tbl' orc v acc decs := by
+theorem prepare_congr (tbl tbl' : Tbl) (h : ∀ k, tbl.lookup k = tbl'.lookup k) (orc : Oracle) (exp : Tok → Tok) (v : Val)
+    (acc : List Tok) (decs : List Nat) : prepare tbl orc exp v acc decs = prepare tbl' orc exp v acc decs := by
   cases v <;> simp [prepare, stripDecs_congr tbl tbl' h]
 
-theorem evalAlias_congr (tbl tbl' : Tbl) (h : ∀ k, tbl.lookup k = tbl'.lookup k) (orc : Oracle) (v : Val)
+theorem evalAlias_congr (tbl tbl' : Tbl) (h : ∀ k, tbl.lookup k = tbl'.lookup k) (orc : Oracle) (exp : Tok → Tok) (v : Val)
     (seen acc : List Tok) (decs : List Nat) :
-    evalAlias tbl orc v seen acc decs = evalAlias tbl' orc v seen acc decs := by
-  fun_induction evalAlias tbl orc v seen acc decs with
+    evalAlias tbl orc exp v seen acc decs = evalAlias tbl' orc exp v seen acc decs := by
+  fun_induction evalAlias tbl orc exp v seen acc decs with
   | case1 v seen acc decs r decs' hp =>
-    rw [evalAlias_eq tbl', ← prepare_congr tbl tbl' h, hp]
+    rw [evalAlias_eq tbl' orc exp, ← prepare_congr tbl tbl' h, hp]
   | case2 v seen acc decs token rest acc' decs' hp hs =>
-    rw [evalAlias_eq tbl', ← prepare_congr tbl tbl' h, hp]
+    rw [evalAlias_eq tbl' orc exp, ← prepare_congr tbl tbl' h, hp]
     simp only []
     rw [if_pos hs]
   | case3 v seen acc decs token rest acc' decs' hp hs hl =>
-    rw [evalAlias_eq tbl', ← prepare_congr tbl tbl' h, hp]
+    rw [evalAlias_eq tbl' orc exp, ← prepare_congr tbl tbl' h, hp]
     simp only []
     rw [if_neg hs, ← h, hl]
   | case4 v seen acc decs token rest acc' decs' hp hs v' hl ih =>
-    rw [evalAlias_eq tbl', ← prepare_congr tbl tbl' h, hp]
+    rw [evalAlias_eq tbl' orc exp, ← prepare_congr tbl tbl' h, hp]
     simp only []
     rw [if_neg hs, ← h, hl]
     exact ih
@@ -265,38 +265,38 @@ theorem lookup_perm (tbl tbl' : Tbl) (hp : tbl.Perm tbl') (hn : (keys tbl).Nodup
     rw [ih1 hn, ih2 hn2]
 
 /-- DEFINITION ORDER IS IRRELEVANT: any permutation of the table gives the same resolution -/
-theorem C15_perm_invariant (tbl tbl' : Tbl) (hp : tbl.Perm tbl') (hn : (keys tbl).Nodup) (orc : Oracle)
-    (key : Tok) (args : List Tok) : Alias.get tbl orc key args = Alias.get tbl' orc key args := by
+theorem C15_perm_invariant (tbl tbl' : Tbl) (hp : tbl.Perm tbl') (hn : (keys tbl).Nodup) (orc : Oracle) (exp : Tok → Tok)
+    (key : Tok) (args : List Tok) : Alias.get tbl orc exp key args = Alias.get tbl' orc exp key args := by
   have h := lookup_perm tbl tbl' hp hn
   unfold Alias.get
   rw [← h key]
   split
   · rfl
   · split <;> simp [evalAlias_congr tbl tbl' h]
-  · exact evalAlias_congr tbl tbl' h _ _ _ _ _
+  · exact evalAlias_congr tbl tbl' h _ _ _ _ _ _
 
 /-! ## self-reference works: `ls -> ls --color` -/
 
-theorem C15_self_ref (tbl : Tbl) (orc : Oracle) (k : Tok) (rest args : List Tok)
-    (hl : tbl.lookup k = some (.words (k :: rest))) :
-    Alias.get tbl orc k args = (.cmd (k :: rest ++ args), [], [k]) := by
+theorem C15_self_ref (tbl : Tbl) (orc : Oracle) (exp : Tok → Tok) (k : Tok) (rest args : List Tok)
+    (hl : tbl.lookup k = some (.words (k :: rest))) (hk : exp k = k) :
+    Alias.get tbl orc exp k args = (.cmd (k :: rest.map exp ++ args), [], [k]) := by
   have hstrip : ∀ decs, stripDecs tbl (k :: rest) decs = (k :: rest, decs) := by
     intro decs; simp [stripDecs, hl]
   unfold Alias.get
   simp only [hl]
   rw [evalAlias_eq]
-  have : prepare tbl orc (.words (k :: rest)) args [] = .go k rest args [] := by
-    by_cases h : (k :: rest).length > 1 <;> simp [prepare, hstrip, h]
+  have : prepare tbl orc exp (.words (k :: rest)) args [] = .go k (rest.map exp) args [] := by
+    by_cases h : (k :: rest).length > 1 <;> simp [prepare, hstrip, h, hk]
   rw [this]
   simp
 
 /-- a chain `a -> b x`, `b -> c y`, user args `u`: alias words accumulate in chain order, then the user's -/
-example : Alias.get [(1, .words [2, 10]), (2, .words [3, 11]), (3, .words [3, 12])] (fun _ _ => none) 1 [20, 21]
+example : Alias.get [(1, .words [2, 10]), (2, .words [3, 11]), (3, .words [3, 12])] (fun _ _ => none) id 1 [20, 21]
     = (.cmd [3, 12, 11, 10, 20, 21], [], [3, 2, 1]) := by
   simp [Alias.get, evalAlias_eq, prepare, stripDecs, List.lookup]
 
 /-- a 2-cycle terminates: `a -> b`, `b -> a` -/
-example : (Alias.get [(1, .words [2]), (2, .words [1])] (fun _ _ => none) 1 [7]).1 = .cmd [1, 7] := by
+example : (Alias.get [(1, .words [2]), (2, .words [1])] (fun _ _ => none) id 1 [7]).1 = .cmd [1, 7] := by
   simp [Alias.get, evalAlias_eq, prepare, List.lookup]
 
 example : NoRet [(1, .words [2, 10]), (2, .callable 0)] := by
